@@ -17,6 +17,10 @@ type GenOpts struct {
 	UniqueStores bool
 	// ManyGroups: small work-groups, 65-280 of them (more groups than one GPU has compute units)
 	ManyGroups bool
+	// LeadSBurst puts a long burst of scalar loads (and a store of its value) first
+	LeadSBurst bool
+	// SBurst allows bursts of back-to-back scalar loads
+	SBurst bool
 	// SubDword allows flat_load_ubyte / sbyte / ushort
 	SubDword bool
 	// FixedGeo, when set, is used instead of a drawn geometry
@@ -193,8 +197,21 @@ func GenProgram(t *rapid.T, o GenOpts) *Program {
 	if wantLDS {
 		kinds = append(kinds, "lds", "lds")
 	}
+	if o.SBurst {
+		kinds = append(kinds, "sload", "sload")
+	}
 	if o.Exit {
 		kinds = append(kinds, "exit")
+	}
+	if o.LeadSBurst {
+		// the program starts with a long burst of scalar loads whose XOR is stored
+		k := rapid.IntRange(0, 1).Draw(t, "leadk")
+		rep := min(MaxSBurst, 1<<p.InLog2[k]) - rapid.IntRange(0, 6).Draw(t, "leadshort")
+		off := rapid.IntRange(0, 1<<p.InLog2[k]-rep).Draw(t, "leadoff")
+		p.Ops = append(p.Ops, Op{Kind: "sload", K: k, N: 1, Rep: rep, Imm: uint32(4 * off)},
+			Op{Kind: "store", A: nv, K: 1, Slot: p.Slots - 1})
+		usedStore[[2]int{1, p.Slots - 1}] = true
+		nv++
 	}
 	for i := 0; i < nOps; i++ {
 		kind := rapid.SampledFrom(kinds).Draw(t, "kind")
@@ -267,6 +284,11 @@ func GenProgram(t *rapid.T, o GenOpts) *Program {
 				}
 			}
 			op.Imm = uint32(off)
+			if o.SBurst && rapid.IntRange(0, 2).Draw(t, "sburst") > 0 && 1<<p.InLog2[op.K] >= 8 {
+				op.N = 1
+				op.Rep = rapid.IntRange(2, min(MaxSBurst, 1<<p.InLog2[op.K])).Draw(t, "srep")
+				op.Imm = uint32(4 * rapid.IntRange(0, 1<<p.InLog2[op.K]-op.Rep).Draw(t, "sburstoff"))
+			}
 		case "lds":
 			if (nlds+1)*wgItems*4 > 32768 {
 				op = Op{Kind: "store", A: ref("a"), K: rapid.IntRange(0, 1).Draw(t, "k"), Slot: rapid.IntRange(0, p.Slots-1).Draw(t, "slot")}
